@@ -93,7 +93,22 @@ var c41LabelSets = map[string][][2]string{
 	"unsorted": {{"a", "1"}, {"__name__", "m"}},
 }
 
-func c41IntHist(i int64) *histogram.Histogram { return tsdbutil.GenerateTestHistogram(i) }
+// c41IntHist / c41FloatHist: asymmetric histograms (every field differs between the positive and the
+// negative side, so that a codec mixing them up is noticed); counts are consistent.
+func c41IntHist(i int64) *histogram.Histogram {
+	h := tsdbutil.GenerateTestHistogram(i)
+	h.NegativeSpans = []histogram.Span{{Offset: 2, Length: 1}, {Offset: 3, Length: 2}}
+	h.NegativeBuckets = []int64{i + 2, 1, 1} // absolute: i+2, i+3, i+4
+	h.PositiveBuckets = []int64{i + 1, 1, -1, 0}
+	h.ZeroCount = uint64(i) + 3
+	h.Count = h.ZeroCount + uint64(4*i+5) + uint64(3*i+9)
+	h.CounterResetHint = histogram.GaugeType
+	return h
+}
+
+func c41FloatHist(i int64) *histogram.FloatHistogram {
+	return c41IntHist(i).ToFloat(nil)
+}
 
 // c41BuildSeries decodes a shape name "labelset:content:exemplars:meta[:st]".
 func c41BuildSeries(shape string, pos int) c41Series {
@@ -134,7 +149,7 @@ func c41BuildSeries(shape string, pos int) c41Series {
 				case "h":
 					s.Hists = append(s.Hists, c41Hist{T: t, ST: st, H: c41IntHist(int64(10*(pos+1) + k))})
 				case "fh":
-					s.Hists = append(s.Hists, c41Hist{T: t, ST: st, FH: tsdbutil.GenerateTestFloatHistogram(int64(10*(pos+1) + k))})
+					s.Hists = append(s.Hists, c41Hist{T: t, ST: st, FH: c41FloatHist(int64(10*(pos+1) + k))})
 				case "hc":
 					s.Hists = append(s.Hists, c41Hist{T: t, ST: st, H: tsdbutil.GenerateTestCustomBucketsHistogram(int64(10*(pos+1) + k))})
 				case "hbad":
@@ -920,7 +935,9 @@ func c41Series2(c c41Case) []c41Series {
 
 func c41Eval(r *vx.Run, c c41Case) string {
 	series := c41Series2(c)
-	c41RoundTrip(r, c, series)
+	if p, stack := vx.Guard(func() { c41RoundTrip(r, c, series) }); p != nil {
+		r.Violation("codec-panic/"+c.Proto, fmt.Sprintf("case %+v: %v\n%s", c, p, stack), c)
+	}
 	var o c41Obs
 	if p, stack := vx.Guard(func() { o = c41Run(c, series) }); p != nil {
 		r.Violation(c.Proto+"-handler-panic", fmt.Sprintf("case %+v: %v\n%s", c, p, stack), c)
